@@ -356,30 +356,16 @@ void SQuIDS::Set_xrange(const std::vector<double>& xs){
 }
 
 unsigned int SQuIDS::Get_i(double xi) const{
-  double xl, xr;
-  unsigned int nr=nx-1;
-  unsigned int nl=0;
-
-  xl=x[nl];
-  xr=x[nr];
-
-  if(xi>xr || xi<xl)
+  if(xi>x[nx-1] || xi<x[0])
     throw std::runtime_error(" Error SQUIDS::Get_i :  value  out of bounds");
 
-  while((nr-nl)>1){
-    if(((nr-nl)%2)!=0){
-      if(nr<nx-1)nr++;
-      else if(nl>0)nl--;
-    }
-    if(xi<(xl+(xr-xl)/2)){
-      nr=nl+(nr-nl)/2;
-      xr=x[nr];
-    }else{
-      nl=nl+(nr-nl)/2;
-      xl=x[nl];
-    }
-  }
-  return nl;
+  //binary search on the node positions themselves: find the last node which
+  //is not greater than xi, but never the final node, so that xi==x[nx-1]
+  //belongs to the last interval
+  auto it=std::upper_bound(x.begin(),x.end()-1,xi);
+  if(it!=x.begin())
+    it--;
+  return std::distance(x.begin(),it);
 }
 
 void SQuIDS::Set_GSL_step(gsl_odeiv2_step_type const* opt){
